@@ -302,7 +302,7 @@ func FuzzTrie(f *testing.F) {
 func TestProp(t *testing.T) {
 	r := core.Start(t, "C09")
 	defer r.Finish()
-	r.Rule("cases = sequences of Put (value = position) on trie.Trie[string,int] backed by queue.Queue, checked against a map model: Size, and for every probe string Get, Contains, LongestPrefix and the drained StartsWith queue, plus the drained Keys queue in byte order, after the last Put (sweep) or every Put (random), incl. the empty key/prefix/query; in half of the cases every listing query is preceded by another listing whose result queue is left (partly) unread; non-trivial = at least 2 distinct keys; distinct by hash of the case")
+	r.Rule("cases = sequences of Put (value = position) on trie.Trie[string,int] backed by queue.Queue, checked against a map model: Size, and for every probe string Get, Contains, LongestPrefix and the drained StartsWith queue, plus the drained Keys queue in byte order, after the last Put (sweep) or every Put (random), incl. the empty key/prefix/query and keys of 31..1025 bytes; in half of the cases every listing query is preceded by another listing whose result queue is left (partly) unread; non-trivial = at least 2 distinct keys; distinct by hash of the case")
 
 	type cfg struct {
 		alpha        string
@@ -364,6 +364,25 @@ func TestProp(t *testing.T) {
 					keys = append(keys, rs(5))
 				}
 			}
+			longCase := i%40 == 17 // long keys: lengths around the powers of two up to 1 KiB, sharing long prefixes
+			if longCase {
+				keys = keys[:0]
+				stem := rs(1100)
+				for len(stem) < 1100 {
+					stem += rs(1100)
+				}
+				lens := []int{31, 32, 33, 63, 64, 65, 66, 100, 127, 128, 129, 255, 256, 257, 511, 512, 1023, 1024, 1025}
+				for n := rng.Range(2, 8); n > 0; n-- {
+					l := lens[rng.Intn(len(lens))]
+					k := stem[:l]
+					if rng.Bool() { // diverge from the stem somewhere
+						at := rng.Intn(l)
+						k = k[:at] + rs(1) + k[at+1:]
+					}
+					keys = append(keys, k)
+				}
+				keys = append(keys, rs(3))
+			}
 			pset := map[string]bool{"": true}
 			pk := keys
 			if bigCase { // probe around a sample of the keys only
@@ -374,6 +393,9 @@ func TestProp(t *testing.T) {
 			}
 			for _, k := range pk {
 				for j := 1; j <= len(k); j++ {
+					if longCase && j > 3 && j < len(k)-2 && j%32 > 1 && j%32 < 31 {
+						continue // long keys: prefixes at both ends and around every multiple of 32
+					}
 					pset[k[:j]] = true
 				}
 				pset[k+al[rng.Intn(len(al)):][:1]] = true
